@@ -3,6 +3,7 @@
    loop with its index arithmetic (`int(points[i+1]) if i < len(points) - 1 else run['basis']`) is the recursion on the sorted runs.
    on2bounds: for an even number of interval end points (Python raises IndexError on an odd one); the range(0, n, 2) loop of slice
    assignments is the membership test is_on.  care2bounds: unconditional. *)
+From Coq Require Import String.
 From Coq Require Import ZArith List Bool Arith Lia.
 From DK Require Import Num Vec.
 From DK.Model Require Import Leaf Loader LoaderOps.
@@ -216,5 +217,73 @@ Section Loaders.
   Proof.
     intros Hev. unfold on2bounds_gen, on2bounds. cbv zeta.
     rewrite (on_loop on (repeat n0 l) Hev), paint_zeros. apply gen_mask_bounds.
+  Qed.
+
+  (* ---- the per-kind loaders ---- *)
+  Definition runs_ok (d : bdev A) : Prop :=
+    NoDup (map fst (b_bounds d)) /\ match b_cum d with Some r => NoDup (map fst r) | None => True end.
+
+  Lemma gen_load_cbounds basis (d : bdev A) : runs_ok d -> load_cbounds_gen basis d = option_map (run_to_cbounds basis) (b_cum d).
+  Proof.
+    intros [_ Hc]. unfold load_cbounds_gen. destruct (b_cum d) as [r|]; simpl; [|reflexivity]. now rewrite gen_run_to_cbounds.
+  Qed.
+
+  Lemma construct_id_dev (d : bdev A) c t cb ps clip : construct_id (dev_id d) c t cb ps clip = construct d c t cb ps clip.
+  Proof. reflexivity. Qed.
+
+  Lemma swap_neg (t : list (A * A)) : stack_cols (map snd (table_neg t)) (map fst (table_neg t)) = neg_swap t.
+  Proof.
+    unfold stack_cols, table_neg, neg_swap. induction t as [|[l h] t IH]; simpl; [reflexivity|]. now rewrite IH.
+  Qed.
+
+  Lemma all_differ (t : list (A * A)) :
+    forallb (fun b => b) (map (fun ab => negb (fst ab =? snd ab)) (combine (map fst t) (map snd t))) = forallb (fun '(l, h) => negb (l =? h)) t.
+  Proof. induction t as [|[l h] t IH]; simpl; [reflexivity|]. now rewrite IH. Qed.
+
+  Lemma remap_params (ps : list (string * A)) : remap storage_map ps = map_params ps.
+  Proof. unfold remap, map_params. apply flat_map_ext. intros [k v]. reflexivity. Qed.
+
+  Lemma clip_params (ps : list (string * A)) :
+    (match pget "disChargeRateClippingFactor" ps with Some v => Some v | None => None end,
+     match pget "chargeRateClippingFactor" ps with Some v => Some v | None => None end) = clip_of ps.
+  Proof. unfold clip_of, pget. destruct (assoc _ ps), (assoc _ ps); reflexivity. Qed.
+
+  Theorem gen_load_device basis (d : bdev A) : runs_ok d -> load_device_gen basis d = load_device basis d.
+  Proof.
+    intros Hok. pose proof (gen_load_cbounds basis d Hok) as Hcb. destruct Hok as [Hb _].
+    unfold load_device_gen.
+    destruct (b_kind d) eqn:Hk; [unfold load_device; rewrite Hk ..|reflexivity].
+    - unfold load_load_device_gen. cbv zeta. rewrite (gen_run_to_array (n0, n0) basis (b_bounds d) Hb).
+      destruct (run_to_array (n0, n0) basis (b_bounds d)) as [t| |]; simpl; [|reflexivity|reflexivity].
+      rewrite Hcb. apply construct_id_dev.
+    - unfold load_fixed_load_device_gen. cbv zeta. rewrite (gen_run_to_array (n0, n0) basis (b_bounds d) Hb).
+      destruct (run_to_array (n0, n0) basis (b_bounds d)) as [t| |]; simpl; [|reflexivity|reflexivity].
+      rewrite all_differ. destruct (forallb _ t); [reflexivity|]. apply construct_id_dev.
+    - unfold load_supply_device_gen. cbv zeta. rewrite (gen_run_to_array (n0, n0) basis (b_bounds d) Hb).
+      destruct (run_to_array (n0, n0) basis (b_bounds d)) as [t| |]; simpl; [|reflexivity|reflexivity].
+      rewrite Hcb, swap_neg. apply construct_id_dev.
+    - unfold load_storage_device_gen. cbv zeta. rewrite (gen_run_to_array (n0, n0) basis (b_bounds d) Hb).
+      destruct (run_to_array (n0, n0) basis (b_bounds d)) as [t| |]; simpl; [|reflexivity|reflexivity].
+      change (remap _ (b_params d)) with (remap storage_map (b_params d)).
+      rewrite remap_params, clip_params. apply construct_id_dev.
+  Qed.
+
+  Lemma load_data_fold basis : forall (ds : list (bdev A)) pre, Forall runs_ok ds ->
+    fold_left (fun acc d => obind acc (fun devices => obind (load_device_gen basis d) (fun x => Accept (devices ++ [x])))) ds (Accept pre)
+    = obind (load_data basis ds) (fun xs => Accept (pre ++ xs)).
+  Proof.
+    induction ds as [|d ds IH]; intros pre Hok; simpl.
+    - now rewrite app_nil_r.
+    - inversion Hok as [|d' ds' Hd Hds]; subst. rewrite (gen_load_device basis d Hd).
+      destruct (load_device basis d) as [x| |]; simpl.
+      + rewrite (IH (pre ++ [x]) Hds). destruct (load_data basis ds) as [xs| |]; simpl; [now rewrite <- app_assoc|reflexivity|reflexivity].
+      + clear IH Hok Hds. induction ds as [|d2 ds IH2]; simpl; [reflexivity|exact IH2].
+      + clear IH Hok Hds. induction ds as [|d2 ds IH2]; simpl; [reflexivity|exact IH2].
+  Qed.
+
+  Theorem gen_load_data basis (ds : list (bdev A)) : Forall runs_ok ds -> load_data_gen basis ds = load_data basis ds.
+  Proof.
+    intros Hok. unfold load_data_gen. rewrite (load_data_fold basis ds [] Hok).
+    destruct (load_data basis ds); reflexivity.
   Qed.
 End Loaders.
